@@ -181,9 +181,10 @@ def only_electrons_moved(x, y, mp=None):
     return sum(a.charge for _, a in x.atoms()) == sum(a.charge for _, a in y.atoms())
 
 
-def stereo_touched_by_keto_enol(m, limit=96, first=24):
+def stereo_touched_by_keto_enol(m, limit=96, first=96, opts=None):   # first == limit: a cut-off below the enumeration limit missed a 41-tautomer input
     """a stereo-labelled atom (or an end of a stereo-labelled bond) of m changes its hybridisation in one of the keto-enol tautomers that the
-    library enumerates for the LABEL-FREE copy of m: the input class on which a keto-enol copy can keep a stale stereo label"""
+    library enumerates for the LABEL-FREE copy of m (under the fixed broad keyword setting, or under the keyword setting `opts` of the call being
+    judged): the input class on which a keto-enol copy can keep a stale stereo label"""
     import itertools
     lab = {n for n, a in m.atoms() if a.stereo is not None}
     for n, k, b in m.bonds():
@@ -199,8 +200,10 @@ def stereo_touched_by_keto_enol(m, limit=96, first=24):
         c.kekule()
         c.implicify_hydrogens()
         hyb = {n: a.hybridization for n, a in c.atoms()}
-        for t in itertools.islice(c.enumerate_tautomers(heteroarenes=False, zwitter=False, partial=True, increase_aromaticity=False, keep_sugars=False,
-                                                        limit=limit), first):
+        # opts: the keyword setting of the call that is being judged (the set of enumerated tautomers depends on it); None: the fixed broad setting
+        kw = dict(heteroarenes=False, zwitter=False, partial=True, increase_aromaticity=False, keep_sugars=False) if opts is None else \
+            {k: v for k, v in opts.items() if k not in ('limit', 'prepare_molecules')}
+        for t in itertools.islice(c.enumerate_tautomers(**kw, limit=limit), first):
             k = t.copy()
             k.kekule()
             if any(n in k._atoms and n in hyb and k._atoms[n].hybridization != hyb[n] for n in lab):
